@@ -224,7 +224,7 @@ def run(R):
         finds, cases, _ = analyse(R, runner, trace, "corpus " + os.path.basename(c))
         report(R, runner, finds, cases, budget=0)
     # 2. generated
-    n = 120 if R.quick else 2500
+    n = 300 if R.quick else 3000
     rc, out, trace = run_harness(R, dict(VERIF_SEED=str(R.seed), VERIF_N=str(n)), "gen")
     if rc != 0:
         R.oracle_failure("harness-crash", "the Go harness aborted (panic in the code under test or deadlock)", dict(output=out[-3000:], seed=R.seed, n=n))
